@@ -288,7 +288,8 @@ impl<const N: usize> Ex<N> {
 
     // ------------------------------------------------------------------ iter / range
     pub fn op_iter(&mut self, st: &Step, x: usize) -> OpOut {
-        let mut out = OpOut::new(cls::ITER);
+        // iter() and range() are also views of the contents (C07 lists them)
+        let mut out = OpOut::new(cls::ITER | cls::VIEW);
         let len = self.models[x].len();
         out.nontrivial = true;
         if st.op == Op::IterDefault {
